@@ -128,6 +128,15 @@ def prop_case(case):
             fails.append(Failure('%s:%s:exception:%s' % (case['sim'], mode, exc_signature(e)), '%s mode raised %r' % (mode, e)))
             continue
         fails += check_series(case, t, D, mode, N)
+        if full and N >= 2 and not fails:
+            # the population series read again after the same object was asked about a sub-population
+            try:
+                nodes_ = [oracles.tolabel(u) for u in case['gc']['nodes']]
+                out.summary(nodelist=nodes_[:max(1, N // 2)])
+                t2, D2 = simrun.as_series(case, out, True)
+                fails += check_series(case, t2, D2, 'reread-full', N)
+            except Exception as e:
+                fails.append(Failure('%s:reread-full:exception:%s' % (case['sim'], exc_signature(e)), 'raised %r' % (e,)))
         if not full:
             end = classify_end(case, t, D)
             classes.append(end)
